@@ -972,7 +972,7 @@ func (c *x04Client) send(toks []string) error {
 			return mism("tls-handshake", "handshake did not finish")
 		}
 		if c.hsErr != nil {
-			return mism("tls-handshake", "handshake failed: %v", c.hsErr)
+			return nil // nothing can be sent inside a session that does not exist; the observation decides
 		}
 		c.readResponses(c.tc, nil)
 		if _, err := c.tc.Write(inner); err != nil {
@@ -1035,11 +1035,9 @@ func (c *x04Client) tokBytesNoSide(t string) ([]byte, string) {
 	return b, q
 }
 
-func x04SplitMarker(buf []byte) (line string, rest []byte, complete bool) {
-	if !bytes.HasPrefix(buf, []byte("PROXY ")) {
-		if len(buf) < 6 && bytes.HasPrefix([]byte("PROXY "), buf) {
-			return "", nil, false
-		}
+// x04SplitMarker separates the outgoing PROXY line (when one is expected) from the bytes behind it.
+func x04SplitMarker(buf []byte, expectLine bool) (line string, rest []byte, complete bool) {
+	if !expectLine {
 		return "", buf, true
 	}
 	i := bytes.IndexByte(buf, '\n')
@@ -1069,11 +1067,8 @@ func (c *x04Client) checkUp(s *x04Snap, wait time.Duration) error {
 		if s.UpEOF && !got.eof {
 			return false
 		}
-		line, rest, complete := x04SplitMarker(got.buf)
+		_, rest, complete := x04SplitMarker(got.buf, e.marker != "")
 		if !complete {
-			return false
-		}
-		if e.marker != "" && line == "" {
 			return false
 		}
 		if isTLS {
@@ -1090,9 +1085,9 @@ func (c *x04Client) checkUp(s *x04Snap, wait time.Duration) error {
 		}
 		return mism("upstream-missing", "no upstream connection although the upstream should have %q (marker %q, eof %v)", e.data, e.marker, s.UpEOF)
 	}
-	line, rest, _ := x04SplitMarker(got.buf)
-	if e.marker == "" && line != "" {
-		return mism("marker-unexpected", "upstream got a PROXY line %q on a route without pxyproto / before the decision", line)
+	line, rest, _ := x04SplitMarker(got.buf, e.marker != "")
+	if e.marker == "" && isTLS && len(got.buf) > 0 {
+		return mism("marker-unexpected", "upstream got a PROXY line %q before the decision", got.buf)
 	}
 	if e.marker != "" {
 		if line == "" {
@@ -1421,8 +1416,12 @@ func TestVerifX04(t *testing.T) {
 		t.Fatal(err)
 	}
 	copies := verifx.EnvInt("X04_COPIES", 4)
+	tStart := time.Now()
 	w := x04Start(t, copies)
 	defer func() { os.Stdout = w.stdout }()
+	tReady := time.Now()
+	var durMu sync.Mutex
+	durs := map[string]time.Duration{}
 	par := verifx.EnvInt("X04_PAR", 96)
 	var wg sync.WaitGroup
 	sem := make(chan struct{}, par)
@@ -1436,6 +1435,9 @@ func TestVerifX04(t *testing.T) {
 		fails := 0
 		for attempt := 0; attempt < 6 && fails < 3; attempt++ {
 			last = w.play(h)
+			durMu.Lock()
+			durs[h.C.key()] += last.duration
+			durMu.Unlock()
 			if last.void != "" {
 				atomic.AddInt64(&voids, 1)
 				continue
@@ -1497,7 +1499,8 @@ func TestVerifX04(t *testing.T) {
 	sort.Strings(keys)
 	os.Stdout = w.stdout
 	verifx.Summary(map[string]any{"histories": played, "voids": voids, "retries": retried, "selftest_rejected": selfOK,
-		"selftest_missed": selfBad, "classes": len(keys), "lanes": len(w.lanes), "dead": dead})
+		"selftest_missed": selfBad, "classes": len(keys), "lanes": len(w.lanes), "dead": dead,
+		"startup_ms": tReady.Sub(tStart).Milliseconds(), "replay_ms": time.Since(tReady).Milliseconds(), "busy": fmt.Sprint(durs)})
 }
 
 // ---------------------------------------------------------------- probe: which named deviations does the tree have?
@@ -1560,9 +1563,9 @@ func TestVerifX04Probe(t *testing.T) {
 	notes := map[string]string{}
 	void := ""
 	hdr4 := "PROXY TCP4 192.0.2.7 198.51.100.9 4321 443\r\n"
-	hasLine := func(u x04UpConn) bool { _, _, c := x04SplitMarker(u.buf); return c && len(u.buf) > 0 }
+	hasLine := func(u x04UpConn) bool { _, _, c := x04SplitMarker(u.buf, true); return c }
 	src := func(u x04UpConn) string {
-		line, _, _ := x04SplitMarker(u.buf)
+		line, _, _ := x04SplitMarker(u.buf, true)
 		f := strings.Fields(line)
 		if len(f) != 6 {
 			return ""
@@ -1675,7 +1678,7 @@ func TestVerifX04Probe(t *testing.T) {
 		r, _ := w.dial(lane)
 		r.c.Write([]byte("PROXY TCP6 2001:db8::7 2001:db8::9 4321 443\r\nx;"))
 		u, _ := r.upstream(3*time.Second, func(u x04UpConn) bool { return u.eof || bytes.HasSuffix(u.buf, []byte("x;")) })
-		line, _, _ := x04SplitMarker(u.buf)
+		line, _, _ := x04SplitMarker(u.buf, true)
 		if f := strings.Fields(line); len(f) == 6 && strings.Contains(f[2], ":") != strings.Contains(f[3], ":") {
 			notes["outgoing-mixed-families"] = fmt.Sprintf("outgoing header %q mixes an IPv6 source with an IPv4 destination (PROXY v1 wants both of the announced family)", strings.TrimSpace(line))
 		}
@@ -1690,4 +1693,277 @@ func TestVerifX04Probe(t *testing.T) {
 	verifx.Summary(map[string]any{"probes": len(dev)})
 }
 
-var _ = json.Marshal
+// ---------------------------------------------------------------- C->S: sends that race the header timer
+
+type x04RaceEv map[string]any
+
+// x04RaceOne plays one connection whose sends are placed around the moment the header timer fires and
+// returns its record: the client's moves in the order they were made, then what the upstream holds.
+func (w *x04World) raceOne(rng *mrand.Rand, n int) ([]x04RaceEv, string) {
+	kinds := []x04Cfg{{"tcp", true, "pxy", false}, {"tcp", true, "bare", false}, {"tcp", true, "acl", false}, {"http", true, "na", false}, {"tcp", false, "pxy", false}}
+	k := kinds[rng.Intn(len(kinds))]
+	heads := []x04Scr{{"v1", 4, "plain", "-"}, {"v1", 6, "plain", "-"}, {"v1", 4, "pro", "-"}, {"unk", 4, "plain", "-"}, {"xfam", 4, "plain", "-"}, {"none", 4, "pro", "-"}, {"none", 4, "plain", "-"}, {"lf", 4, "plain", "-"}}
+	sc := heads[rng.Intn(len(heads))]
+	h := &x04Hist{C: k, S: sc}
+	h.Stream = x04Stream(k, sc)
+	lane := <-w.pools[k.key()]
+	defer func() { w.pools[k.key()] <- lane }()
+	c := &x04Client{w: w, h: h, lane: lane, id: fmt.Sprintf("r%d", n)}
+	c.rcond = sync.NewCond(&c.rmu)
+	if lane.up != nil {
+		c.from = lane.up.count()
+	}
+	stall := verifx.WatchStalls()
+	conn, err := net.DialTimeout("tcp", lane.addr, 5*time.Second)
+	if err != nil {
+		stall.Stop()
+		return nil, "connect: " + err.Error()
+	}
+	t0 := time.Now()
+	c.raw = conn.(*net.TCPConn)
+	c.peer = conn.LocalAddr().String()
+	c.pump = x04NewPump(conn)
+	defer c.raw.Close()
+	if k.Proto == "http" {
+		c.readResponses(c.pump, nil)
+	}
+	yn := func(b bool) string {
+		if b {
+			return "y"
+		}
+		return "n"
+	}
+	evs := []x04RaceEv{{"ev": "conn", "proto": k.Proto, "pxy": yn(k.Pxy), "ropt": k.Ropt, "rt": yn(k.Rt), "head": sc.Head, "fam": sc.Fam, "pay": sc.Pay, "sni": sc.Sni}}
+	delay := func() {
+		switch rng.Intn(4) {
+		case 0:
+		case 1, 2: // around the moment the timer fires
+			d := w.T + time.Duration(rng.Intn(50)-25)*time.Millisecond - time.Since(t0)
+			time.Sleep(d)
+		case 3:
+			time.Sleep(4*w.T - time.Since(t0))
+			evs = append(evs, x04RaceEv{"ev": "waited"})
+		}
+	}
+	total := len(h.Stream)
+	cut := rng.Intn(total + 1)
+	delay()
+	pos := 0
+	if cut > 0 {
+		evs = append(evs, x04RaceEv{"ev": "send", "n": cut})
+		c.send(h.Stream[:cut])
+		pos = cut
+	}
+	if pos < total {
+		delay()
+		evs = append(evs, x04RaceEv{"ev": "send", "n": total - pos})
+		c.send(h.Stream[pos:])
+	}
+	if k.Proto == "http" {
+		// a request whose client goes away is answered 499: let the answers arrive first
+		deadline := time.Now().Add(3 * time.Second)
+		for time.Now().Before(deadline) && !c.pump.ended() {
+			if got := c.waitResps(len(c.sentQ), 20*time.Millisecond); len(got) >= len(c.sentQ) || (len(got) > 0 && got[len(got)-1].status == 400) {
+				break
+			}
+		}
+	}
+	evs = append(evs, x04RaceEv{"ev": "fin"})
+	c.raw.CloseWrite()
+	// everything drains: the upstream sees the end of the stream, or fabio closes the connection
+	end := x04RaceEv{"ev": "end", "marker": "", "n": 0, "off": -1, "upeof": "n", "resps": []string{}}
+	if lane.up != nil {
+		c.pump.waitEnd(5 * time.Second)
+		var got *x04UpConn
+		lane.up.waitFor(c.from, 2*time.Second, func(cs []*x04UpConn) bool {
+			if len(cs) == 0 {
+				return c.pump.ended()
+			}
+			if cs[0].eof {
+				cp := *cs[0]
+				cp.buf = append([]byte(nil), cs[0].buf...)
+				got = &cp
+			}
+			return cs[0].eof
+		})
+		if got != nil {
+			end["upeof"] = "y"
+			buf := got.buf
+			if k.Ropt != "bare" {
+				line, rest, complete := x04SplitMarker(buf, true)
+				if !complete {
+					return nil, fmt.Sprintf("upstream holds an incomplete PROXY line %q", buf)
+				}
+				f := strings.Fields(line)
+				end["marker"] = "bad"
+				if len(f) == 6 {
+					pip, pport := c.effAddr("peer")
+					dip, dport := c.effAddr("decl")
+					if f[2] == pip && f[4] == pport {
+						end["marker"] = "peer"
+					} else if f[2] == dip && f[4] == dport {
+						end["marker"] = "decl"
+					}
+				}
+				buf = rest
+			}
+			// the data must be the stream from behind the header, or from the start, up to a token boundary
+			end["n"] = -1
+			for _, off := range []int{0, len(x04Head(sc))} {
+				var acc []byte
+				if len(buf) == 0 {
+					end["n"], end["off"] = 0, -1
+					break
+				}
+				for i := off; i < total; i++ {
+					b, _ := c.tokBytesNoSide(h.Stream[i])
+					acc = append(acc, b...)
+					if bytes.Equal(acc, buf) {
+						end["n"], end["off"] = i+1-off, off
+					}
+				}
+				if end["n"].(int) >= 0 {
+					break
+				}
+			}
+		}
+	} else {
+		c.pump.waitEnd(5 * time.Second)
+		got := c.waitResps(99, 100*time.Millisecond)
+		var rs []string
+		fw := 0
+		for i, r := range got {
+			if r.status == 400 {
+				rs = append(rs, "400")
+				continue
+			}
+			if i >= len(c.sentQ) {
+				return nil, "more answers than requests"
+			}
+			tag := c.sentQ[i]
+			kind := map[string]string{"a": "open", "c": "decl", "d": "peer", "p": "pfind"}[tag]
+			line, ok := w.log.wait(c.id+tag, 5*time.Second)
+			if !ok {
+				return nil, "no access log line for " + c.id + tag
+			}
+			eff := "bad"
+			pip, pport := c.effAddr("peer")
+			dip, dport := c.effAddr("decl")
+			if line[0] == net.JoinHostPort(pip, pport) {
+				eff = "peer"
+			} else if line[0] == net.JoinHostPort(dip, dport) {
+				eff = "decl"
+			}
+			if r.status == 200 {
+				fw++
+				f, _ := w.uh.get(c.id + tag)
+				ip, _ := c.effAddr(eff)
+				if f.XFF != ip {
+					eff = "bad"
+				}
+			}
+			rs = append(rs, fmt.Sprintf("%d:%s:%s", r.status, kind, eff))
+		}
+		if rs == nil {
+			rs = []string{}
+		}
+		end["resps"], end["n"] = rs, fw
+	}
+	evs = append(evs, end)
+	if st := stall.Stop(); st > w.T/4 {
+		// a stall may have made "waited" wrong: drop that claim, keep the rest
+		var out []x04RaceEv
+		for _, e := range evs {
+			if e["ev"] != "waited" {
+				out = append(out, e)
+			}
+		}
+		evs = out
+	}
+	return evs, ""
+}
+
+func x04Head(s x04Scr) []string {
+	pre := []string{"P", "R", "O", "X", "Y", " "}
+	chars := func(x string) []string {
+		var o []string
+		for _, r := range x {
+			o = append(o, string(r))
+		}
+		return o
+	}
+	body := "TCP4 192.0.2.7 198.51.100.9 4321 443"
+	if s.Fam == 6 {
+		body = "TCP6 2001:db8::7 2001:db8::9 4321 443"
+	}
+	switch s.Head {
+	case "none":
+		return nil
+	case "v1":
+		return append(append(pre, chars(body)...), "CR", "LF")
+	case "lf":
+		return append(append(pre, chars(body)...), "LF")
+	case "unk":
+		return append(append(pre, chars("UNKNOWN")...), "CR", "LF")
+	case "v2":
+		return []string{"V2a", "V2b", "V2c"}
+	}
+	return append(pre, "X"+s.Head[1:], "CR", "LF")
+}
+
+// x04Stream is Ingress!StreamOf for the listener kinds of the race test.
+func x04Stream(c x04Cfg, s x04Scr) []string {
+	h := x04Head(s)
+	switch c.Proto {
+	case "http":
+		if s.Pay == "pro" {
+			return append(h, "P", "R", "O", "Qp")
+		}
+		return append(h, "Qa", "Qb", "Qc", "Qd")
+	default:
+		if s.Pay == "pro" {
+			return append(h, "P", "R", "O", "B2")
+		}
+		return append(h, "B1", "B2")
+	}
+}
+
+func TestVerifX04Race(t *testing.T) {
+	n := verifx.EnvInt("X04_RACES", 150)
+	w := x04Start(t, verifx.EnvInt("X04_COPIES", 4))
+	defer func() { os.Stdout = w.stdout }()
+	out, err := os.Create(os.Getenv("X04_TRACE"))
+	if err != nil {
+		t.Fatal(err)
+	}
+	defer out.Close()
+	var mu sync.Mutex
+	var wg sync.WaitGroup
+	sem := make(chan struct{}, 48)
+	recorded, skipped := 0, 0
+	for i := 0; i < n; i++ {
+		sem <- struct{}{}
+		wg.Add(1)
+		go func(i int) {
+			defer wg.Done()
+			defer func() { <-sem }()
+			rng := mrand.New(mrand.NewSource(verifx.Seed()*100003 + int64(i)))
+			evs, why := w.raceOne(rng, i)
+			mu.Lock()
+			defer mu.Unlock()
+			if why != "" {
+				skipped++
+				verifx.Emit(map[string]any{"kind": "race-skip", "why": why})
+				return
+			}
+			recorded++
+			for _, e := range evs {
+				b, _ := json.Marshal(e)
+				out.Write(append(b, '\n'))
+			}
+		}(i)
+	}
+	wg.Wait()
+	os.Stdout = w.stdout
+	verifx.Summary(map[string]any{"recorded": recorded, "skipped": skipped})
+}
